@@ -23,14 +23,18 @@ StartsWith(s, p) == Len(s) >= Len(p) /\ Take(s, Len(p)) = p
 Min(a, b) == IF a <= b THEN a ELSE b
 
 \* least i >= from such that p occurs in s at i; 0 when there is none.  The string is searched in windows
-\* of 32 positions so that the recursion depth stays small for strings of several KiB (TLC's cost per
-\* evaluation grows with the depth of the recursion).
+\* of 32 positions (FindIn) so that the recursion depth stays about Len(s)/32 + 32 for strings of several
+\* KiB: TLC's cost per evaluation grows with the depth of the recursion.  (Each parameter is used once per
+\* recursive argument on purpose: with -coverage TLC re-evaluates lazy arguments at every use.)
+RECURSIVE FindIn(_, _, _, _)
+FindIn(s, p, from, to) ==            \* least match position in from..to, else 0
+  IF from > to \/ from + Len(p) - 1 > Len(s) THEN 0
+  ELSE IF SubSeq(s, from, from + Len(p) - 1) = p THEN from
+  ELSE FindIn(s, p, from + 1, to)
 RECURSIVE Find(_, _, _)
+FindNext(s, p, from, r) == IF r # 0 THEN r ELSE Find(s, p, from + 32)
 Find(s, p, from) ==
-  IF from + Len(p) - 1 > Len(s) THEN 0
-  ELSE LET hi   == Min(from + 31, Len(s) - Len(p) + 1)
-           hits == { i \in from..hi : SubSeq(s, i, i + Len(p) - 1) = p }
-       IN IF hits # {} THEN CHOOSE i \in hits : \A j \in hits : i <= j ELSE Find(s, p, hi + 1)
+  IF from + Len(p) - 1 > Len(s) THEN 0 ELSE FindNext(s, p, from, FindIn(s, p, from, from + 31))
 
 RECURSIVE LFPositions(_, _)
 LFPositions(s, from) == LET i == Find(s, LF, from) IN IF i = 0 THEN <<>> ELSE <<i>> \o LFPositions(s, i + 1)
